@@ -7,6 +7,7 @@ import Sgz.Model.IO
 import Sgz.Model.Cache
 import Sgz.Model.Axes
 import Sgz.Model.Emul
+import Sgz.Model.Headers
 /-!
 Line-protocol driver over the executable model (`Sgz/Model`, Mathlib-free).  One request per line, one answer per
 line.  The Python harness sends the same request to the real implementation and diffs canonical answers.
@@ -295,8 +296,26 @@ def handleEmul (ws : List String) : String :=
     | _, _, _, _ => "bad-op"
   | _ => "bad-op"
 
+/-- `hwtable <first-trace values …> | <last-trace values …>`: the heuristic header-word table (`const:code` per field,
+code = 1 + index of the representative field), the stored fields in footer order, and the array count -/
+def handleHwTable (line : String) : String :=
+  match line.splitOn "|" with
+  | [a, b] =>
+    let pa := ((a.trimAscii.toString.splitOn " ").filter (· ≠ "")).mapM String.toInt?
+    let pb := ((b.trimAscii.toString.splitOn " ").filter (· ≠ "")).mapM String.toInt?
+    match pa, pb with
+    | some fa, some fb =>
+      if fa.length != fb.length then "bad-op" else
+      let s : Headers.Src := { F := fa.length, T := 2, h := fun t f => if t == 0 then fa.getD f 0 else fb.getD f 0 }
+      let tbl := Headers.classify s
+      let rows := " ".intercalate (tbl.map fun (c, d) => s!"{c}:{d}")
+      s!"{rows} | {joinNat (Headers.storedFields tbl)} | {Headers.arrayCount tbl}"
+    | _, _ => "bad-op"
+  | _ => "bad-op"
+
 def handle (line : String) : String :=
   if line.startsWith "hist " then handleHist (line.drop 5).toString else
+  if line.startsWith "hwtable " then handleHwTable (line.drop 8).toString else
   match (line.trimAscii.toString.splitOn " ").filter (· ≠ "") with
   | "read" :: rest => handleRead rest
   | "ver" :: rest => handleVer rest
